@@ -110,7 +110,7 @@ func sceneNewBatch(o ReqOpts) {
 		}
 	}
 	// C10: the batch counter never passes the largest total ever in force
-	chk("C10", vf.Implies(vf.And(pre.Repeated, pre.RepeatedTotal > 0), int64(post.BatchCounter) <= s.MaxTotal), "counter-within-total")
+	chk("C10", vf.Implies(vf.And(pre.Repeated, !s.Unbounded), int64(post.BatchCounter) <= s.MaxTotal), "counter-within-total")
 	chk("C10", vf.Implies(!pre.Repeated, post.BatchCounter <= 1), "one-shot-single-batch")
 	// bindings are not touched by a batch start
 	for i := 0; i < s.N; i++ {
